@@ -31,6 +31,7 @@ pub(crate) fn evolve_propose_json_data_created(
     files: Vec<String>,
     files_posix: Vec<String>,
     committed: bool,
+    skipped: Vec<crate::handlers::evolve::EvolveProposeSkippedItem>,
 ) -> serde_json::Value {
     serde_json::json!({
         "created": true,
@@ -39,5 +40,6 @@ pub(crate) fn evolve_propose_json_data_created(
         "files": files,
         "files_posix": files_posix,
         "committed": committed,
+        "skipped": skipped,
     })
 }
